@@ -659,6 +659,14 @@ class StmtMixin:
 
     def havoc_path(self, target: str, env):
         """target like 'self._uid_to_fname' or 'removed'."""
+        if target == "fs()":
+            from .models import fsmodels
+
+            addr = fsmodels.fs_cell(self)
+            cell = self.path.heap[addr]
+            for k in list(cell.fields):
+                cell.fields[k] = self.path.const("fs.havoc", cell.fields[k].sort())
+            return
         expr = ast.parse(target, mode="eval").body
         ref = self.ev(expr, env)
         if isinstance(ref, VRef):
